@@ -14,9 +14,25 @@ STR_KEYS = ["a", "b", "c", "ab", "1", "A"]
 IDENT_KEYS = ["a", "b", "c", "ab"]
 OTHER_KEYS = [0, 1, 2, 1.5, True, False, None, -1, 2.0]
 TYPES = [int, float, str, list, dict, bool]
+# the WIDE pools: edges of the value space that the small pools above never reach (drawn with probability WIDE_P per
+# scalar / key): large and negative numbers, integral floats, strings with upper case / every ASCII white-space
+# character / signs / underscores / prefixes of other strings, and the words the library uses internally
+WIDE_P = 0.07
+INTS_WIDE = [17, 255, -100, 1000, 65536, 10 ** 6, -10 ** 6, -3, 7, 8, 9, 999999]
+# HUGE numbers are only used where no `x in range(lo, hi)` with a non-int x can meet them as a bound (CPython scans
+# such a range item by item: 2.5 in range(0, 1700000000) takes minutes)
+INTS_HUGE = [1700000000, 1700000001, -1700000000, 2 ** 31 - 1, -(2 ** 31 - 1), 2 ** 27, 2 ** 27 + 1, 99999999]
+FLOATS_WIDE = [1000000.5, -0.125, 1024.0, 7.875, -2.0, 10.0, 4.0, 100.0, 16777216.5, 134217000.0, -134217000.125, 3.0, 0.0, 1.0]
+STRS_WIDE = ["True", "TRUE", " true", "false ", "tRuE", "+3", "-0", "007", "1__0", "_1", "1_", " 1 2 ", "\t3", "3\r\n", "0x1F",
+             "1e3", "a b", "ABC", "Ab", "aB", "value", "path", "type", "condition", "key", "index", "length", "dtype", "None",
+             "null", "aaaaaaaaaaaa", "\x1f5", " ", "abcd", "ba", "\x0b-7\x0c", "+ 3", "3 ", "33"]
+STR_KEYS_WIDE = ["", "value", "path", "type", "a.b", "ab ", "abc", "0", "None", "true", "B", "aa", "condition", "key", " a"]
+OTHER_KEYS_WIDE = [10, -2, 3, 2.5, 4, 0.5, 100, -1.5, 3.0]
 
 
 def scalar(rng):
+    if rng.random() < WIDE_P:
+        return rng.choice(rng.choice([INTS_WIDE, FLOATS_WIDE, STRS_WIDE, STRS_WIDE]))
     r = rng.random()
     if r < 0.30:
         return rng.choice(INTS)
@@ -30,6 +46,8 @@ def scalar(rng):
 
 
 def key(rng, strish=0.7):
+    if rng.random() < WIDE_P:
+        return rng.choice(STR_KEYS_WIDE if rng.random() < strish else OTHER_KEYS_WIDE)
     if rng.random() < strish:
         return rng.choice(STR_KEYS)
     return rng.choice(OTHER_KEYS)
@@ -49,6 +67,8 @@ def distinct_keys(rng, n, strish=0.7):
 def value(rng, depth=2, maxlen=4):
     if depth <= 0 or rng.random() < 0.45:
         return scalar(rng)
+    if maxlen <= 4 and rng.random() < 0.04:
+        maxlen = 8                               # now and then a long container (positions >= 4, a last item far away)
     if rng.random() < 0.12:
         return twins(rng)
     if rng.random() < 0.5:
@@ -69,6 +89,8 @@ def twins(rng):
 
 def document(rng, depth=3, maxlen=4, strish=0.7):
     """non-empty list or mapping"""
+    if rng.random() < 0.05:
+        depth, maxlen = depth + 2, max(maxlen, 6)      # now and then a deep / long document
     if rng.random() < 0.45:
         return [value(rng, depth - 1, maxlen) for _ in range(rng.randint(1, maxlen))]
     ks = distinct_keys(rng, rng.randint(1, maxlen), strish)
